@@ -1,11 +1,22 @@
 (** C08 — a spec string compiles iff it is well-formed; errors point inside the string.
-    PARTIAL: proved here are the totality of lexer and parser, that every error position lies
-    inside the string at a token (or at its end), that the tokens of an accepted spec tile its
-    non-blank characters with faithful text and position, and that compilation stops before
-    anything runs. The equivalence of the recursive-descent parser with the declarative grammar
-    (the "iff well-formed" direction against an independent grammar) is NOT proved: it is covered by
-    the independent maximal-munch lexer / recogniser used as oracle by the check. *)
-From MowCli Require Import Base Lexer Parser Values Flow Cmd LexerProofs ParserProofs.
+    PROVED on the model:
+    [C08_compiles_iff_grammar]: a spec compiles iff the lexer accepts it and the declarative grammar of
+    the spec language ([GrammarProofs.GSeq]: seq = {choice}; choice = ratom {'|' ratom}; ratom = atom
+    ['...'] but not after '--'; atom = ARG | OPTIONS | -x [=<v>] | --xx [=<v>] | -xyz | '(' seq1 ')' |
+    '[' seq1 ']' | '--'; brackets balanced and non-empty; every option and argument declared; no option
+    after '--' in the text) derives its tokens — [C08_parser_iff_grammar]: the recursive-descent parser
+    returns a syntax tree exactly when the grammar derives the token list, and that tree
+    ([GrammarProofs.parser_sound], [parser_complete]); [C08_token_shapes]: every token of an accepted
+    spec has the shape the grammar names for its kind (short -x, folded -xyz of letters, long --name,
+    upper-case argument other than OPTIONS, OPTIONS, "--", "=<text>", "...", "|", brackets);
+    [C08_tokens_partition] / [C08_token_text_and_position]: every non-blank character belongs to exactly
+    one token whose text and position are faithful; [C08_error_inside]: every compile error position
+    lies inside the string (at a token, or at its end); [C08_panics_before_hooks]: Run panics with the
+    spec error before any Action or interceptor runs; totality of lexer and parser.
+    NOT proved: that every string made of well-shaped tokens is accepted by the lexer (the converse of
+    [C08_token_shapes]: maximal munch); covered by the independent maximal-munch lexer used as oracle by
+    the check on all strings of length <= 4-5 over 16 class representatives. *)
+From MowCli Require Import Base Lexer Parser Values Flow Cmd LexerProofs ParserProofs GrammarProofs ShapeProofs.
 
 (** the lexer never runs out of the fuel [tokenize] gives it *)
 Theorem C08_lexer_total : forall s, tokenize s <> LexFuel.
@@ -64,6 +75,26 @@ Theorem C08_panics_before_hooks :
     run pf ge a argv = mkResult (RPanicSpec m p) [] [] [].
 Proof. intros pf ge a argv m p H. unfold run. now rewrite H. Qed.
 
+(** the recursive-descent parser and the declarative grammar accept the same token lists, with the
+    same syntax tree *)
+Theorem C08_parser_iff_grammar :
+  forall lo la speclen toks e,
+    parse_tokens lo la speclen toks = ParseOk e <-> exists ro', GSeq lo la false toks e ro'.
+Proof. exact parse_tokens_iff_grammar. Qed.
+
+Theorem C08_compiles_iff_grammar :
+  forall opts args spec,
+    (exists i, compile opts args spec = IOk i) <->
+    (exists toks e ro', tokenize spec = LexOk toks /\ GSeq (lookup_name opts) (lookup_name args) false toks e ro').
+Proof. exact compile_iff_grammar. Qed.
+
+(** the tokens of an accepted spec have the shapes the grammar names *)
+Theorem C08_token_shapes : forall s ts, tokenize s = LexOk ts -> forallb shape_b ts = true.
+Proof. exact tokenize_shapes. Qed.
+
+Print Assumptions C08_parser_iff_grammar.
+Print Assumptions C08_compiles_iff_grammar.
+Print Assumptions C08_token_shapes.
 Print Assumptions C08_lexer_total.
 Print Assumptions C08_lexer_error_inside.
 Print Assumptions C08_tokens_partition.
@@ -83,3 +114,27 @@ Example C08_nonvacuous :
          mkTok TArg (lit "SRC") 5; mkTok TRep (lit "...") 8; mkTok TLongOpt (lit "--out") 12;
          mkTok TOptValue (lit "=<file>") 17].
 Proof. vm_compute. reflexivity. Qed.
+
+(** a derivation in the grammar, built by hand, for the tokens of "[-f] X...": the grammar is
+    inhabited independently of the parser *)
+Example C08_grammar_example :
+  let lo := fun n => if str_eqb n (lit "-f") then Some 0 else None in
+  let la := fun n => if str_eqb n (lit "X") then Some 0 else None in
+  GSeq lo la false
+       [mkTok TOpenSq (lit "[") 0; mkTok TShortOpt (lit "-f") 1; mkTok TCloseSq (lit "]") 3;
+        mkTok TArg (lit "X") 5; mkTok TRep (lit "...") 6]
+       (SCons (COne (RAtom (ASq (SCons (COne (RAtom (AOpt 0) false)) SNil)) false))
+              (SCons (COne (RAtom (AArg 0) true)) SNil)) false.
+Proof.
+  intros lo la.
+  apply (GCons lo la false [mkTok TOpenSq (lit "[") 0; mkTok TShortOpt (lit "-f") 1; mkTok TCloseSq (lit "]") 3] _ false
+               [mkTok TArg (lit "X") 5; mkTok TRep (lit "...") 6]).
+  - apply GOne, GPlain.
+    apply (GSq lo la false (mkTok TOpenSq (lit "[") 0) [mkTok TShortOpt (lit "-f") 1] _ false (mkTok TCloseSq (lit "]") 3));
+      [reflexivity | | discriminate | reflexivity].
+    apply (GCons lo la false [mkTok TShortOpt (lit "-f") 1] _ false []); [|constructor].
+    apply GOne, GPlain, GOpt; [now left | reflexivity].
+  - apply (GCons lo la false [mkTok TArg (lit "X") 5; mkTok TRep (lit "...") 6] _ false []); [|constructor].
+    apply GOne. apply (GRep lo la false [mkTok TArg (lit "X") 5] (AArg 0) false (mkTok TRep (lit "...") 6)); [|discriminate|reflexivity].
+    apply GArg; reflexivity.
+Qed.
